@@ -403,7 +403,8 @@ def _increment_glue(ctx, py):
             for j in range(3):
                 z[i, j] = RSym(sp.Symbol("G%d_%d" % (i, j), real=True))
         return z, z.copy()
-    ts = [RSym(sp.Symbol("t%d" % i, real=True)) for i in range(n)]
+    from pvx.sym import increasing_stamps
+    ts = [RSym(x) for x in increasing_stamps(n)]
     k = 180 / sp.pi
     lla = np.array([[RSym(sp.Symbol("la%d" % i, real=True) * k), RSym(sp.Symbol("lo%d" % i, real=True) * k), RSym(sp.Symbol("al%d" % i, real=True))] for i in range(n)], dtype=object)
     rph = np.array([[RSym(sp.Symbol("%s%d" % (c_, i), real=True) * k) for c_ in ("ro", "pi", "he")] for i in range(n)], dtype=object)
